@@ -214,8 +214,10 @@ func loadProgram(pkgDirs map[string]bool, tags string) (*Loaded, error) {
 	return l, nil
 }
 
+var noMergingFlag = os.Getenv("SYMEX_NOMERGE") != ""
+
 func newEngine(l *Loaded) *Engine {
-	e := &Engine{prog: l.prog, ndPkg: l.nd}
+	e := &Engine{prog: l.prog, ndPkg: l.nd, noMerging: noMergingFlag}
 	theEngine = e
 	e.setupGlobals()
 	e.runInits()
@@ -240,6 +242,7 @@ func (e *Engine) runHarness(fn *ssa.Function, h *HarnessDef, tier string) *Harne
 	if s := h.optInt("deadline", 0); s > 0 {
 		e.cfg.Deadline = time.Now().Add(time.Duration(s) * time.Second)
 	}
+	e.noMerging = noMergingFlag || h.opt("merge", "0") != "1"
 	t0 := time.Now()
 	st := &State{heap: Heap{base: e.base, objs: map[int]*Obj{}, owned: map[int]bool{}}, known: map[*Term]uint64{}}
 	st.frames = []*Frame{newFrame(fn, nil, nil, retTop)}
@@ -380,11 +383,15 @@ func cmdDev(args []string) int {
 	tier := fs.String("tier", "quick", "tier")
 	dbg := fs.Bool("cuts", false, "print cuts")
 	dsol := fs.Bool("dsol", false, "print solver errors")
+	dmerge := fs.Bool("dmerge", false, "print merge failures")
+	nomerge := fs.Bool("nomerge", false, "disable function-level merging")
 	noReplay := fs.Bool("noreplay", false, "skip native replay")
 	workers := fs.Int("workers", 0, "override workers")
 	fs.Parse(args)
 	debugCuts = *dbg
 	debugSolver = *dsol
+	debugMerge = *dmerge
+	noMergingFlag = *nomerge
 	theTier = *tier
 	var sel []*HarnessDef
 	for _, h := range scanHarnesses() {
@@ -413,8 +420,8 @@ func cmdDev(args []string) int {
 	}
 	rc := 0
 	runGroup(sel, *tier, "DEV", !*noReplay, func(h *HarnessDef, r *HarnessResult, ev *HarnessEvidence, confirmed []*Violation, unconfirmed []*Violation) {
-		fmt.Printf("%s: status=%s paths=%d asserts=%d(unsat %d, unk %d) queries=%d solver=%.2fs wall=%.2fs cuts=%v reached=%v missing=%v\n",
-			h.Func, ev.Status, r.Paths, r.Asserts, r.AssertsUnsat, r.AssertsUnk, r.Stats.Queries, r.Stats.Dur.Seconds(), r.Wall, r.Cuts, ev.Reached, ev.MissingMarker)
+		fmt.Printf("%s: merges=%d status=%s paths=%d asserts=%d(unsat %d, unk %d) queries=%d solver=%.2fs wall=%.2fs cuts=%v reached=%v missing=%v\n",
+			h.Func, r.Merges, ev.Status, r.Paths, r.Asserts, r.AssertsUnsat, r.AssertsUnk, r.Stats.Queries, r.Stats.Dur.Seconds(), r.Wall, r.Cuts, ev.Reached, ev.MissingMarker)
 		for _, v := range confirmed {
 			fmt.Printf("  CONFIRMED %s %q: %s\n   %s\n", v.Kind, v.Label, v.Msg, fmtVec(v.Vector))
 			rc = 1
